@@ -95,6 +95,17 @@ def handshake_qos2(ctx):
         calls_ = {a[1] for a in at if a[0] == "call"}
         from_rx = any("oneshot::Receiver" in c and c.endswith("poll") for c in calls_)
         fresh = any("fetch_" in c for c in calls_)
+        # precise trace where possible: the operand is a field of the Pubrec payload of an awaited value
+        o = pb.origin(t["ops"][1], through_calls=True)
+        if o[0] == "place":
+            pr = o[1]["p"]
+            names = [p.get("n") for p in pr if isinstance(p, dict) and "f" in p]
+            downs = [p["dc"] for p in pr if isinstance(p, dict) and "dc" in p]
+            base_defs = pb.whole_defs(o[1]["l"])
+            polled = any(d[0] == "call" and (callee_name(d[2]) or "").endswith("Future::poll") and "oneshot::Receiver" in ((d[2]["callee"].get("self_ty") or "") + (d[2]["callee"].get("resolved") or "")) for d in base_defs)
+            if "Pubrec" in downs and "packet_identifier" in names and polled:
+                f = {"packet_identifier"} | {n for n in names if isinstance(n, str)}
+                from_rx, fresh = True, False
         out.append(Inst("HANDSHAKE-QOS2", "pubrel-id", "packet_identifier" in f and from_rx and not fresh, pb.site(i),
                         "PUBREL identifier derives from fields %s, awaited receiver=%s, fresh allocation=%s" % (sorted(x for x in f if isinstance(x, str)), from_rx, fresh),
                         "the PUBREC's packet_identifier (same identifier as the PUBLISH)"))
